@@ -106,39 +106,45 @@ def h_registry(sx):
     model = {t: [] for t in ("given", "when", "then", "step")}     # reference registry: lists of (def index, func index)
     hist = []
     for i in range(n):
-        c = sx.choice("reg%d" % i, list(range(len(defs) * len(STYPES) * 2)))
-        c = c if isinstance(c, int) else c.concretize()
+        if i == 0 and sx.params.get("first") is not None:
+            c = sx.params["first"]          # thorough tier: histories sharded by their first registration
+        else:
+            c = sx.choice("reg%d" % i, list(range(len(defs) * len(STYPES) * 2)))
+            c = c if isinstance(c, int) else c.concretize()
         di, rest = c % len(defs), c // len(defs)
         st, fi = STYPES[rest % len(STYPES)], rest // len(STYPES)
         d = defs[di]
         hist.append([d[0], d[1], st, "f%d" % fi])
         use_step_matcher(d[0])
-        # -- reference decision
-        # (a definition registered earlier is checked first: identical -> ignored, else matches(new pattern) -> ambiguous)
-        first_decisive = None
+        # -- reference decision: the set of acceptable outcomes {ambiguous, ignored, added}
+        # (definitions registered earlier are checked first: identical function+pattern -> ignored; matches(new pattern text)
+        #  -> ambiguous.  The identical pattern text with ANOTHER function that does not match its own text (typed fields,
+        #  regex groups) is not pinned by the statement - behave rejects it for parse patterns and accepts it for regular
+        #  expressions - so there "ambiguous" is acceptable and so is carrying on with the scan.)
+        acceptable = set()
         for (ei, ef) in model[st]:
             if (ei, ef) == (di, fi):
-                first_decisive = "same"
+                acceptable.add("ignored")
                 break
             if ref_match(defs[ei], d[1]) is not None:
-                first_decisive = "ambiguous"
+                acceptable.add("ambiguous")
                 break
             if ei == di:
-                # the identical pattern text with ANOTHER function: the statement does not pin this case
-                # (behave rejects it for parse patterns, accepts it for regular expressions) - either outcome accepted
-                first_decisive = "dontcare"
-                break
+                acceptable.add("ambiguous")
+        else:
+            acceptable.add("added")
+        before = len(reg.steps[st])
         try:
             reg.add_step_definition(st, d[1], funcs[fi])
-            raised = False
+            outcome = "added" if len(reg.steps[st]) == before + 1 else "ignored"
         except AmbiguousStep:
-            raised = True
-        if first_decisive != "dontcare":
-            sx.check(raised == (first_decisive == "ambiguous"), "C11.ambiguity-raised-exactly-when-existing-definition-matches",
-                     detail={"history": hist, "raised": raised, "expected": first_decisive})
-        if first_decisive is None or (first_decisive == "dontcare" and not raised):
+            outcome = "ambiguous"
+        sx.check(outcome in acceptable, "C11.ambiguity-raised-exactly-when-existing-definition-matches",
+                 detail={"history": hist, "outcome": outcome, "acceptable": sorted(acceptable)})
+        if outcome == "added":
             model[st].append((di, fi))
-        sx.check(len(reg.steps[st]) == len(model[st]), "C11.identical-re-registration-ignored", detail={"history": hist, "registered": len(reg.steps[st]), "expected": len(model[st])})
+        sx.check(len(reg.steps[st]) == len(model[st]) and (outcome != "ignored" or "ignored" in acceptable), "C11.identical-re-registration-ignored",
+                 detail={"history": hist, "registered": len(reg.steps[st]), "expected": len(model[st]), "outcome": outcome, "acceptable": sorted(acceptable)})
     # -- all lookups
     runner = ModelRunner(base_config(("--no-summary",)), features=[])
     ctx = Context(runner)
@@ -240,9 +246,12 @@ def jobs(tier, seed):
     js.append(Job("registry.n1", "props.c11:h_registry", {"n": 1}, reach=["C11.bound-to-first-matching-definition(type-before-generic,earlier-first)",
                   "C11.function-receives-converted-parameters(named-by-keyword,anonymous-by-position)", "C11.argument-offsets-delimit-original-text"],
                   min_paths=30, cost=10, validate=30, closure=False))
-    js.append(Job("registry.n%d" % n, "props.c11:h_registry", {"n": n}, reach=["C11.bound-to-first-matching-definition(type-before-generic,earlier-first)",
-                  "C11.ambiguity-raised-exactly-when-existing-definition-matches", "C11.identical-re-registration-ignored"],
-                  min_paths=500, cost=5000, validate=60, closure=False, max_paths=600000, budget_s=3000))
+    firsts = list(range(len(_defs()) * len(STYPES) * 2))       # histories sharded by their first registration
+    for first in firsts:
+        js.append(Job("registry.n%d%s" % (n, "" if first is None else ".first%03d" % first), "props.c11:h_registry", {"n": n, "first": first},
+                      reach=["C11.bound-to-first-matching-definition(type-before-generic,earlier-first)",
+                             "C11.ambiguity-raised-exactly-when-existing-definition-matches", "C11.identical-re-registration-ignored"],
+                      min_paths=50, cost=5000, validate=2 if tier == "quick" else 10, closure=False, max_paths=600000, budget_s=1500))
     js.append(Job("module-reset", "props.c11:h_module_reset", {}, reach=["C11.matcher-switch-does-not-leak-into-next-step-module"], min_paths=3, cost=5,
                   validate="all", closure=False))
     return js
